@@ -107,9 +107,11 @@ type Engine struct {
 	feasCache map[string]Result
 	initCache map[*ssa.Package]*initSnap
 	mergeMemo map[string][]*mergeMemoEntry
+	noops     []string
 }
 
 func NewEngine(prog *ssa.Program, cfg Config) (*Engine, error) {
+	runLate()
 	ts := NewTermStore()
 	if cfg.Unwind == 0 {
 		cfg.Unwind = 8
@@ -145,6 +147,7 @@ func NewEngine(prog *ssa.Program, cfg Config) (*Engine, error) {
 func (e *Engine) Close() { e.solver.Close() }
 
 func (e *Engine) AddStub(callee string, fn *ssa.Function) { e.stubs[callee] = fn }
+func (e *Engine) AddNoop(prefix string)                  { e.noops = append(e.noops, prefix) }
 
 func (e *Engine) info(fn *ssa.Function) *fnInfo {
 	if v, ok := e.fnInfos.Load(fn); ok {
